@@ -865,6 +865,43 @@ func c13DirectMappedX(c *Ctx, r *Result, idx int, seed int64, fixedKeys []string
 		r.violate(Violation{Kind: "correspondence", Key: "C13:model-tree-mapped", Broken: "correspondence postMap / joinKey (file tree)",
 			What: "file tree after Fork.postProcess of a call mapped over a typed map differs between the real code and the model", Input: cas, Impl: d})
 	}
+	// ---- content_preserved_mapped: hypotheses evaluated by the driver; where they hold the real
+	// record must be the promised one (the tree is compared with the model above) ----
+	{
+		fsEnc := before.enc(c13Ancestors(root))
+		var w, nd, cl string
+		var nl int
+		reply := c.Drv.Ask("C13.hypm", hx(ps), hx(outsRoot), c13EncParams(params), outs.encStr(), fsEnc)
+		if _, err := fmt.Sscanf(reply, "wf=%s nodup=%s clean=%s leaves=%d", &w, &nd, &cl, &nl); err != nil {
+			r.violate(Violation{Kind: "correspondence", Key: "C13:driver", What: "hypm reply: " + c13Short(reply), Input: cas, Broken: "driver"})
+		} else {
+			r.hist("mapped:hyp:cleanMapped:" + cl)
+			covered := true
+			for t := range g.tags {
+				if !c13CoveredTags[t] {
+					covered = false
+				}
+			}
+			if covered {
+				r.hist("mapped:hyp:covered-run:clean=" + cl)
+			}
+			if w != "true" || nd != "true" || (covered && cl != "true") {
+				r.violate(Violation{Kind: "correspondence", Key: "C13:hypothesis-fails-on-covered-run", Broken: "content_preserved_mapped (hypotheses wfParams, distinct keys, Clean over the legal forks)",
+					What:  fmt.Sprintf("a hypothesis of content_preserved_mapped fails on a run it is said to cover: %s", reply),
+					Input: cas})
+			}
+			if w == "true" && nd == "true" && cl == "true" && (perr == nil || onlyKeyErrs) {
+				r.hist("mapped:content-preserved-mapped:checked")
+				xr := strings.Split(c.Drv.Ask("C13.run", "mx", "g", hx(ps), hx(outsRoot), c13EncParams(params), outs.encStr(), fsEnc), "\t")
+				xj, xerr := c13ParseJSON([]byte(unhx(xr[0])))
+				if len(xr) != 2 || xerr != nil || xj.canon() != post.canon() {
+					r.violate(Violation{Kind: "correspondence", Key: "C13:model-record-half-mapped", Broken: "content_preserved_mapped (expectedMapped)",
+						What:  "the hypotheses of content_preserved_mapped hold, but the real rewritten record is not the promised one",
+						Input: cas, Impl: strip(string(compactJSON(raw))), Model: strip(unhx(xr[0]))})
+				}
+			}
+		}
+	}
 	if idx%150 == 0 {
 		r.sample(map[string]interface{}{"mapped": cas.Keys, "class": class, "order": order, "result": strip(string(compactJSON(raw)))})
 	}
